@@ -3,7 +3,7 @@
 P=$(realpath "$1"); shift
 cd /repo || exit 9
 if ! git diff --quiet; then echo "/repo has uncommitted changes"; exit 9; fi
-git apply --3way "$P" 2>/dev/null || git apply "$P" || { echo "patch does not apply"; exit 9; }
+git apply "$P" 2>/dev/null || git apply --3way "$P" 2>/dev/null || { echo "patch does not apply"; git reset -q --hard HEAD; exit 9; }
 E=$(mktemp -d); cp -r /verif/evidence/. $E/ 2>/dev/null
 for id in "$@"; do
   (cd /verif && ./check "$id" 2>&1 | grep -E "^VIOLATION|^KNOWN|^CANNOT|^  rule=|^\[" )
